@@ -1088,7 +1088,6 @@ func feeOptionminFeeDecimal(value interface{}, ctx *Context, validationOnly Func
 	if err != nil {
 		return false, errors.Wrap(err, "Setup Fee Options")
 	}
-	ctx.FeePool.SetupOpt(feeOptions)
 	err = ctx.GovernanceStore.WithHeight(ctx.Header.Height).SetLUH(governance.LAST_UPDATE_HEIGHT_FEE)
 	if err != nil {
 		return false, errors.Wrap(err, "Unable to set last Update height ")
